@@ -282,6 +282,31 @@ def fam_ws(k, alphabet):
   return Family(f"F-ws[{k} nodes]", prod.n, dec, check_doc, timeout=30, note="text nodes x xml:space x br gaps")
 
 
+def fam_ws_ruby():
+  """white-space collapsing inside ruby containers: text that collapses to nothing below rb / rt"""
+  alpha = ["a", " ", " a", "a ", "\n"]
+  prod = Product([["x ", "x", " "], alpha, alpha, alpha, [0, 1, 2, 3]])
+
+  def dec(i):
+    lead, t1, t2, t3, pat = prod.decode(i)
+    def sp(sid, s):
+      return node("span", [text(s)], id=sid)
+    rbk = [sp("b1", t1), node("span", [sp("b2", t2)], id="b2o")]
+    rtk = [sp("t1", t3)]
+    if pat == 0:
+      kids = [node("rb", rbk, id="rb"), node("rt", rtk, id="rt")]
+    elif pat == 1:
+      kids = [node("rb", rbk, id="rb"), node("rp", [sp("p1", "(")], id="rp1"), node("rt", rtk, id="rt"), node("rp", [sp("p2", ")")], id="rp2")]
+    elif pat == 2:
+      kids = [node("rbc", [node("rb", rbk, id="rb")], id="rbc"), node("rtc", [node("rt", rtk, id="rt")], id="rtc")]
+    else:
+      kids = [node("rbc", [node("rb", rbk, id="rb")], id="rbc"), node("rtc", [node("rt", rtk, id="rt")], id="rtc"),
+              node("rtc", [node("rt", [sp("t2", "z")], id="rt2")], id="rtc2")]
+    p = node("p", [sp("s0", lead), node("ruby", kids, id="ruby"), sp("s9", " y")], id="p")
+    return {"spec": doc_spec(node("body", [node("div", [p], id="d")], id="b"), []), "times": [F(0)], "key": f"F-ws-ruby#{i}"}
+  return Family("F-ws-ruby", prod.n, dec, check_doc, timeout=30, note="white space that collapses to nothing inside ruby base / text")
+
+
 # ---------------------------------------------------------------------------------------------------
 # style grid
 
@@ -337,6 +362,7 @@ def plan(tier, seed):
   for f in c01.plan(tier, seed):
     fams.append(Family(f.name, f.n, f.decode, check_doc, shrink=c01.shrink_doc, timeout=30, note=f.note))
   fams.append(fam_grid())
+  fams.append(fam_ws_ruby())
   kinds = sorted(APPLICABLE)
   fams.append(Family("F-table", len(kinds), lambda i: {"kind": kinds[i]}, check_table, timeout=10, note="applicability table diff"))
   if tier == "quick":
